@@ -5,7 +5,7 @@ import htmltools
 from htmltools import HTML, HTMLDocument, Tag, TagList, html_escape
 from htmltools import _util
 
-from engine.api import conc, concrete, harness
+from engine.api import conc, concrete, harness, in_alphabet
 from oracles.escape import ref_escape_text
 from oracles.util import MARK, TF, subst
 
@@ -178,3 +178,27 @@ def _hist_body(sv: int, order: int) -> bool:
 def h_emit_history(sv: int, order: int) -> bool:
     """the escaped form of a plain string does not depend on what was rendered before (the same text as HTML(), as an attribute, repeatedly)"""
     return concrete(_hist_body, conc(sv, 0, len(_LONG) - 1), conc(order, 0, 4))
+
+
+_FIRST = "abcdefghijklmnopqrstuvwxyz"
+_REST = "abcdefghijklmnopqrstuvwxyz0123456789-"
+
+
+def _valid_name(n: str) -> bool:
+    if len(n) == 0 or n[0] not in _FIRST:
+        return False
+    return in_alphabet(n[1:], _REST)
+
+
+@harness("C02", pre=lambda B, n, how: len(n) <= B["L"] and _valid_name(n) and n != "script" and n != "style" and 0 <= how <= 1,
+         bounds={"quick": {"L": 7}, "thorough": {"L": 8}},
+         shard={"how": range(2)},
+         sym=["n: element name, every string over [a-z][a-z0-9-]* up to L characters except exactly 'script' and 'style'"],
+         sel=["how: single text child / several children"],
+         targets=["htmltools._core.Tag.get_html_string"], timeout={"quick": 300, "thorough": 2400},
+         outside="names longer than L")
+def h_escape_any_element(n: str, how: int) -> bool:
+    """text is escaped under every ordinary element name (only the names 'script' and 'style' themselves are raw-text elements)"""
+    if how == 0:
+        return Tag(n, "a<b&c>").get_html_string() == "<" + n + ">a&lt;b&amp;c&gt;</" + n + ">"
+    return Tag(n, "x<", "&y", _add_ws=False).get_html_string() == "<" + n + ">x&lt;&amp;y</" + n + ">"
